@@ -409,6 +409,11 @@ func runCase(c Case) Event {
 	// the minifier may write into its input buffer: give it a private copy
 	in := append([]byte{}, c.In...)
 	ev.Panic, ev.Msg = lib.Guard(func() {
+		if !c.Keep && c.ID%2 == 0 {
+			// the package-level entry point (default options) for half of the default-option cases
+			err = mxml.Minify(minify.New(), &out, bytes.NewReader(in), nil)
+			return
+		}
 		o := &mxml.Minifier{KeepWhitespace: c.Keep}
 		err = o.Minify(minify.New(), &out, bytes.NewReader(in), nil)
 	})
